@@ -264,7 +264,7 @@ Definition entry_ok (x:entry) : Prop :=
   filter (fun p => nthZ oks p =? e_key x) (upto (length oks)) = zrange (e_a x) (e_old x + 1) /\
   new_row nks (e_key x) = (if e_new x =? -1 then None else Some (e_new x)) /\
   0 <= e_a x /\ (e_old x = -1 \/ (e_a x <= e_old x /\ e_old x < len oks)) /\
-  (e_new x = -1 \/ 0 <= e_new x < len nks).
+  (e_new x = -1 \/ 0 <= e_new x < len nks) /\ (e_old x = -1 -> e_new x <> -1).
 
 Lemma nks_le q q' : 0 <= q -> q <= q' -> q' < len nks -> nthZ nks q <= nthZ nks q'.
 Proof. intros. apply (ssorted_sorted nks Hsn); lia. Qed.
